@@ -399,3 +399,46 @@ def c12f(ctx):
     for o in sub.obs:
         (ctx.ok if o.status == 'ok' else ctx.bad)('%s:%s' % (o.rule, o.construct), o.msg, o.where)
     ctx.stats['functions'] |= sub.stats['functions']
+
+
+@rule('C12.g', floor=2)
+def c12g(ctx):
+    """a cleanup task never continues from (or is skipped because of) the stored progress of a seed task: the progress store is keyed
+    by task.id, and the ids of CleanupTask and SeedTask can never be equal -- the cleanup id carries a constant tag the seed id does
+    not have in that position, or the two tuples differ in length"""
+    S = 'mapproxy/seed/seeder.py'
+    ids = {}
+    for cname in ('SeedTask', 'CleanupTask'):
+        f = ctx.fn('%s:%s.id' % (S, cname))
+        rets = [r for r in returns_of(f.node) if r.value is not None]
+        forms = [f.canon.expr(r.value) for r in rets]
+        if len(forms) != 1 or not isinstance(forms[0], ast.Tuple):
+            raise Undecided('%s.id does not return one tuple' % cname)
+        ids[cname] = (f, forms[0])
+    a, b = ids['SeedTask'][1], ids['CleanupTask'][1]
+    distinct = len(a.elts) != len(b.elts)
+    for x, y in zip(a.elts, b.elts):
+        cx, cy = const_value(x, Ellipsis), const_value(y, Ellipsis)
+        if (isinstance(cx, str) or isinstance(cy, str)) and cx != cy and (cx is Ellipsis or cy is Ellipsis) is False:
+            distinct = True
+        # a constant tag against a configuration value: distinct as long as the tag is not a value the other position can take;
+        # a string tag against the tuple of levels / against a differently typed element is always distinct
+    tagged = [k for k, (x, y) in enumerate(zip(a.elts, b.elts)) if isinstance(const_value(y, None), str) != isinstance(const_value(x, None), str)]
+    typed = any(is_call(x, 'tuple') != is_call(y, 'tuple') for x, y in zip(a.elts, b.elts))
+    ok = distinct or (bool(tagged) and typed)
+    ctx.check(ok, 'CleanupTask.id:distinct-from-seed-id',
+              'seed id %s and cleanup id %s cannot be equal' % (unparse(a).replace(' ', ''), unparse(b).replace(' ', '')), ids['CleanupTask'][0],
+              fail='CleanupTask.id and SeedTask.id have the same form %s: a cleanup task reads the progress a seed task with the same name, cache, '
+                   'grid and levels stored (an empty remainder: "finished") and removes nothing' % unparse(b).replace(' ', ''))
+    # the stores are keyed by that id
+    n = 0
+    for rel in (S, 'mapproxy/seed/cleanup.py'):
+        for f in sorted(ctx.repo.fns_in(rel + ':'), key=lambda f_: f_.qn):
+            for x in f.walk():
+                if is_call(x, 'progress_store.get', 'progress_store.add') and x.args:
+                    n += 1
+                    k = sum(1 for o in ctx.obs if o.construct.startswith('%s:progress-keyed-by-task-id' % f.short))
+                    ctx.check(f.ctext(x.args[0]).endswith('.id'), '%s:progress-keyed-by-task-id%s' % (f.short, k or ''),
+                              'stored progress is looked up / recorded by task.id', f, x)
+    if n < 2:
+        raise Undecided('only %d accesses of the progress store found' % n)
